@@ -32,12 +32,30 @@ pub fn record<E: Pairing>(cfg: &str, seed: u64, n: usize, out: &mut dyn std::io:
     let mut gt = vec![PairingOutput::<E>::zero(); K];
     let pick_scalar = |rng: &mut Rng| -> BigUint {
         match rng.below(10) { 0 => BigUint::from(0u32), 1 => BigUint::from(1u32), 2 => BigUint::from(2u32), 3 => &r - 1u32, 4 | 5 | 6 => BigUint::from(rng.below(9)), 7 => &r - rng.below(5), _ => rng.biguint_below(&r) } };
+    let mut forced: std::collections::VecDeque<Value> = Default::default();
     for step in 0..n {
-        let d = rng.below(K as u64) as usize;
+        let mut d = rng.below(K as u64) as usize;
         let s = rng.below(K as u64) as usize;
-        let c = rng.below(100);
+        let mut c = rng.below(100);
         let grp = 1 + rng.below(2) as usize;
-        let mut ev: Value = if c < 22 { json!({"op": "load", "grp": grp, "d": d + 1, "k": num_to_json(&pick_scalar(&mut rng), true)}) }
+        // scripted pair of events: raise a non-identity target-group register to an exponent with whole limbs of ones (the
+        // shapes on which NAF / windowed recodings carry across limbs), then to the inverse exponent modulo r: the register must
+        // come back to a value whose fingerprint is already in the history.
+        if forced.is_empty() && step % 9 == 4 && !gt[d].is_zero() {
+            let one = BigUint::from(1u32);
+            let m64: BigUint = (&one << 64u32) - &one;
+            let ks: [BigUint; 7] = [m64.clone(), &m64 << 7u32, (&one << 128u32) - &one, &m64 << 64u32, (&m64 << 64u32) + 1u32, (&one << 127u32) - &one, (&m64 << 64u32) | BigUint::from(0x8000_0000_0000_0001u64)];
+            let k: BigUint = ks[rng.below(ks.len() as u64) as usize].clone() % &r;
+            if k != BigUint::from(0u32) {
+                let kinv: BigUint = k.modpow(&(&r - 2u32), &r);
+                let vias = ["scalar", "scalar_ref", "bigint", "bits_be", "bits_be_padded"];
+                forced.push_back(json!({"op": "gt_pow", "d": d + 1, "k": num_to_json(&k, true), "via": *rng.pick(&vias)}));
+                forced.push_back(json!({"op": "gt_pow", "d": d + 1, "k": num_to_json(&kinv, true), "via": *rng.pick(&vias)}));
+            }
+        }
+        let forced_ev = forced.pop_front();
+        if let Some(f) = &forced_ev { d = f["d"].as_u64().unwrap() as usize - 1; c = 1000; }
+        let mut ev: Value = if c == 1000 { forced_ev.unwrap() } else if c < 22 { json!({"op": "load", "grp": grp, "d": d + 1, "k": num_to_json(&pick_scalar(&mut rng), true)}) }
             else if c < 34 { json!({"op": "add", "grp": grp, "d": d + 1, "s": s + 1}) }
             else if c < 40 { json!({"op": "neg", "grp": grp, "d": d + 1}) }
             else if c < 48 { json!({"op": "mul", "grp": grp, "d": d + 1, "k": num_to_json(&pick_scalar(&mut rng), true)}) }
